@@ -8,6 +8,7 @@ package c04
 
 import (
 	"bytes"
+	"net/url"
 	"context"
 	"errors"
 	"fmt"
@@ -111,7 +112,7 @@ func genSpec(seed int64, i int) Spec {
 	}
 	nb := rng.Pick(g, []int{1, 1, 2, 2, 3})
 	for b := 0; b < nb; b++ {
-		bs := BranchSpec{Enc: rng.Pick(g, []string{"json", "json", "console"}), Sink: rng.Pick(g, []string{"lock", "buffered", "buffered", "file", "combine", "shared-pair"})}
+		bs := BranchSpec{Enc: rng.Pick(g, []string{"json", "json", "console"}), Sink: rng.Pick(g, []string{"lock", "buffered", "buffered", "file", "combine", "combine1", "open-custom", "shared-pair"})}
 		if bs.Sink == "buffered" {
 			bs.BufSize = rng.Pick(g, []int{64, 300, 1024, 4096, 65536})
 		}
@@ -151,6 +152,32 @@ func encoder(kind string) zapcore.Encoder {
 }
 
 var fileSeq atomic.Int64
+
+// custom sinks opened through zap.Open: the factory hands out the recording sink registered
+// under the URL's host name.
+var (
+	customSinks    sync.Map
+	customOnce     sync.Once
+	customSchemeID string
+)
+
+type closableSink struct{ *recSink }
+
+func (closableSink) Close() error { return nil }
+
+func customScheme() string {
+	customOnce.Do(func() {
+		customSchemeID = fmt.Sprintf("c04s%d", os.Getpid())
+		_ = zap.RegisterSink(customSchemeID, func(u *url.URL) (zap.Sink, error) {
+			v, ok := customSinks.Load(u.Host)
+			if !ok {
+				return nil, fmt.Errorf("unknown custom sink %q", u.Host)
+			}
+			return closableSink{v.(*recSink)}, nil
+		})
+	})
+	return customSchemeID
+}
 
 // build constructs the logger of a spec. In reference mode every sink is a plain
 // recording sink (same encoders, same levels) and the logger is used sequentially.
@@ -192,6 +219,23 @@ func build(s Spec, reference bool) (*env, error) {
 			a, c := &recSink{}, &recSink{}
 			ws = zap.CombineWriteSyncers(a, c)
 			readers = append(readers, func() []byte { return a.buf }, func() []byte { return c.buf })
+		case "combine1":
+			// a single writer: the result is documented as safe for concurrent use all the same
+			a := &recSink{}
+			ws = zap.CombineWriteSyncers(a)
+			readers = append(readers, func() []byte { return a.buf })
+		case "open-custom":
+			// exactly one path, a custom (unsynchronised) sink: Open's result must serialise the writes
+			rs := &recSink{}
+			name := fmt.Sprintf("c04-%d-%d", os.Getpid(), fileSeq.Add(1))
+			customSinks.Store(name, rs)
+			w, closeFn, err := zap.Open(customScheme() + "://" + name)
+			if err != nil {
+				return nil, err
+			}
+			ws = w
+			e.cleanup = append(e.cleanup, closeFn)
+			readers = append(readers, func() []byte { return rs.buf })
 		}
 		lvl := zapcore.InfoLevel
 		if b.Warn {
@@ -258,13 +302,20 @@ func payload(h uint64, big bool) string {
 	return string(b)
 }
 
-const nKinds = 15
+const nKinds = 18
 
-var kindNames = []string{"Logger.Info", "Logger.Warn", "Logger.Debug(disabled)", "Check+Write", "Sugar.Infow", "Sugar.Infof", "Sugar.Infoln", "std-log.Print", "zapio.Writer", "slog.Handle", "With-child.Error", "Named.Info", "WithLazy-child.Info", "Logger.Info(reflect,error)", "Sugar.With.Warnw"}
+var kindNames = []string{"Logger.Info", "Logger.Warn", "Logger.Debug(disabled)", "Check+Write", "Sugar.Infow", "Sugar.Infof", "Sugar.Infoln", "std-log.Print", "zapio.Writer", "slog.Handle", "With-child.Error", "Named.Info", "WithLazy-child.Info", "Logger.Info(reflect,error)", "Sugar.With.Warnw", "With-child(open namespace).Warn(no fields)", "With-child(reflected context).Info(reflect)", "With-child(reflected context).Warn(no fields)"}
 
 type wctx struct {
 	child *zap.Logger
 	lazy  *zap.Logger
+	refl  *zap.Logger
+}
+
+type settings struct {
+	Name  string
+	Ports []int
+	Tags  map[string]string
 }
 
 // emit issues call (gi, seq). Its content is a pure function of (spec, gi, seq), so the
@@ -318,8 +369,24 @@ func emit(e *env, s *Spec, c *wctx, gi, seq int) int {
 		c.lazy.Info(msg, zap.String("p", p))
 	case 13:
 		e.logger.Info(msg, zap.Reflect("r", map[string]int{"g": gi}), zap.Error(fmt.Errorf("err %s", id)), zap.Errors("es", []error{errSink, errSink}))
-	default:
+	case 14:
 		e.sugar.With("w", gi).Warnw(msg, "p", p)
+	case 15:
+		// no call-site fields on a child whose context ends inside an open namespace
+		if c.child == nil {
+			c.child = e.logger.With(zap.Int("child_of", gi), zap.Namespace("ns"))
+		}
+		c.child.Warn(msg)
+	default:
+		// a child whose accumulated context holds a reflection-encoded value
+		if c.refl == nil {
+			c.refl = e.logger.With(zap.Reflect("settings", settings{"svc", []int{gi, 80}, map[string]string{"g": id}}), zap.Int("child_of", gi))
+		}
+		if kind == 16 {
+			c.refl.Info(msg, zap.Reflect("r", []string{id, "x"}), zap.String("p", p))
+		} else {
+			c.refl.Warn(msg)
+		}
 	}
 	return kind
 }
